@@ -932,12 +932,24 @@ func (c *Compiler) codeToOpcode(ctx *compileContext, typ *runtime.Type, code Cod
 
 func (c *Compiler) linkRecursiveCode(ctx *compileContext) {
 	recursiveCodes := map[uintptr]*CompiledCode{}
-	for _, recursive := range *ctx.recursiveCodes {
+	// (compiling a struct below may add to the list)
+	for i := 0; i < len(*ctx.recursiveCodes); i++ {
+		recursive := (*ctx.recursiveCodes)[i]
 		typeptr := uintptr(unsafe.Pointer(recursive.Type))
 		codes := ctx.structTypeToCodes[typeptr]
 		if recursiveCode, ok := recursiveCodes[typeptr]; ok {
 			*recursive.Jmp = *recursiveCode
 			continue
+		}
+		if len(codes) == 0 {
+			// the struct was reached only as an embedded member, which is flattened into its
+			// parent: it has no program of its own to jump to yet
+			structCode, err := c.structCode(recursive.Type, false)
+			if err != nil {
+				continue
+			}
+			codes = structCode.ToOpcode(ctx)
+			codes.Last().Next = newEndOp(ctx, recursive.Type)
 		}
 
 		code := copyOpcode(codes.First())
